@@ -14,7 +14,7 @@ PROFILE = {
 
 
 def build_cases(tier, seed):
-    n, steps = (96, 220) if tier == "quick" else (960, 500)
+    n, steps = (96, 220) if tier == "quick" else (2000, 500)
     cases = []
     for i in range(n):
         s = seed * 100000 + 3000 + i
